@@ -54,10 +54,12 @@ FIXEDV = [
 
 FIELDS = {
     2: dict(f=[[1, 2], [1, 3], [-1, 4]], f2=[[2, 1], [-1, 2], [1, 5]], h=[[1, 1], [1, 2], [-2, 3]],
-            g=[[[1, 1], [1, 2], [0, 1]], [[-1, 2], [0, 1], [2, 3]]], A=[[[2, 1], [1, 2]], [[-1, 3], [3, 2]]], c=[3, 2]),
+            g=[[[1, 1], [1, 2], [0, 1]], [[-1, 2], [0, 1], [2, 3]]], A=[[[2, 1], [1, 2]], [[-1, 3], [3, 2]]], c=[3, 2],
+            B=[[[1, 1], [2, 1]], [[-1, 2], [1, 3]], [[3, 1], [1, 1]]]),
     3: dict(f=[[1, 2], [1, 3], [-1, 4], [1, 5]], f2=[[2, 1], [-1, 2], [1, 5], [0, 1]], h=[[1, 1], [1, 2], [-2, 3], [1, 4]],
             g=[[[1, 1], [1, 2], [0, 1], [1, 3]], [[-1, 2], [0, 1], [2, 3], [0, 1]], [[0, 1], [1, 1], [0, 1], [-1, 2]]],
-            A=[[[2, 1], [1, 2], [0, 1]], [[-1, 3], [3, 2], [1, 1]], [[0, 1], [1, 4], [2, 1]]], c=[3, 2]),
+            A=[[[2, 1], [1, 2], [0, 1]], [[-1, 3], [3, 2], [1, 1]], [[0, 1], [1, 4], [2, 1]]], c=[3, 2],
+            B=[[[1, 1], [2, 1], [0, 1]], [[-1, 2], [1, 3], [1, 1]], [[3, 1], [1, 1], [-1, 1]], [[1, 2], [0, 1], [2, 1]]]),
 }
 
 FIXED = [   # named forms of the polynomial fragment that must always be in the sample
@@ -73,6 +75,8 @@ FIXED = [   # named forms of the polynomial fragment that must always be in the 
     ['hpar', 'u', '*', 'vy', '*'],                     # parametric coefficient field
     ['f', 'val', 'v', '*'],                            # load vector
     ['g', 'gv', 'inner'],                              # vector load
+    ['B', 'T', 'B', 'matmat', 'gu', 'matvec', 'gv', 'inner'],   # (B^T B) grad u . grad v: wide x tall matrix product
+    ['B', 'B', 'T', 'matmat', 'tr', 'u', '*', 'v', '*'],        # tr(B B^T) u v: tall x wide
 ]
 
 NONPOLY = [  # accepted by the compiler, outside the exact fragment: build + load + assemble + finite
